@@ -290,6 +290,23 @@ impl<'a, 't> Printer<'a, 't> {
         }
         parts
     }
+    /// underscores between the digits of a fixed-point number - on both sides of the point (they
+    /// are ignored wherever they stand; the scale of the fraction is the number of its DIGITS)
+    fn underscored(&mut self, num: &str) -> String {
+        if !num.contains('.') || !self.t.ratio(1, 4) || !self.g.want("FRACTION_UNDERSCORE") {
+            return num.to_string();
+        }
+        let mut out = String::new();
+        let mut prev_digit = false;
+        for c in num.chars() {
+            if c.is_ascii_digit() && prev_digit && self.t.ratio(1, 3) {
+                out.push('_');
+            }
+            out.push(c);
+            prev_digit = c.is_ascii_digit();
+        }
+        out
+    }
     fn duration(&mut self, d: &DurationLiteral) {
         let total_ns = d.interval.whole_nanoseconds();
         match self.t.below(3) {
@@ -314,6 +331,7 @@ impl<'a, 't> Printer<'a, 't> {
         let parts = self.duration_parts(total_ns);
         let n = parts.len();
         for (i, (num, unit)) in parts.into_iter().enumerate() {
+            let num = self.underscored(&num);
             self.o.glue().num(&num);
             self.o.glue().textkw(unit);
             if i + 1 < n && self.t.ratio(1, 4) && self.g.want("DURATION_UNDERSCORE") {
@@ -349,6 +367,7 @@ impl<'a, 't> Printer<'a, 't> {
         if micro > 0 {
             let f = format!("{:06}", micro);
             ss = format!("{}.{}", ss, f.trim_end_matches('0'));
+            ss = self.underscored(&ss);
         }
         self.o.glue().num(&ss);
     }
